@@ -67,6 +67,7 @@ namespace via
       Chunk state_ { Chunk::SIZE_LS }; ///< the current parsing state
       bool size_read_ { false };       ///< true if the chunk size was read
       bool valid_ { false };           ///< true if a chunk header is valid
+      bool fail_ { false };            ///< true if the chunk header failed validation
 
       /// Parse an individual character.
       /// @param c the current character to be parsed.
@@ -209,6 +210,7 @@ namespace via
         state_ = Chunk::SIZE_LS;
         size_read_ =  false;
         valid_ =  false;
+        fail_ = false;
       }
 
       /// Swap member variables with another chunk_header.
@@ -224,6 +226,7 @@ namespace via
         std::swap(state_, other.state_);
         std::swap(size_read_, other.size_read_);
         std::swap(valid_, other.valid_);
+        std::swap(fail_, other.fail_);
       }
 
       /// Parse an http 1.1 chunk size line
@@ -234,10 +237,13 @@ namespace via
       template<typename ForwardIterator>
       bool parse(ForwardIterator& iter, ForwardIterator end)
       {
+        if (fail_)
+          return false;
+
         while ((iter != end) && (Chunk::VALID != state_))
         {
           char c(*iter++);
-          if (!parse_char(c))
+          if ((fail_ = !parse_char(c))) // Note: deliberate assignment
             return false;
         }
 
@@ -264,6 +270,11 @@ namespace via
       /// @return the valid flag.
       bool valid() const noexcept
       { return valid_; }
+
+      /// Accessor for the fail flag.
+      /// @return the fail flag.
+      bool fail() const noexcept
+      { return fail_; }
 
       /// Function to determine whether this is the last chunk.
       /// @return true if the last chunk, false otherwise.
@@ -347,6 +358,8 @@ namespace via
       Container data_ {};           ///< the data contained in the chunk
       MessageHeaders trailers_ {}; ///< the HTTP field headers for the last chunk
       bool valid_ { false };        ///< true if the chunk is valid
+      bool cr_ { false };           ///< the CR after the chunk data has been read
+      bool fail_ { false };         ///< true if the chunk data terminator failed validation
 
     public:
 
@@ -368,6 +381,8 @@ namespace via
         data_.clear();
         trailers_.clear();
         valid_ =  false;
+        cr_ = false;
+        fail_ = false;
       }
 
       /// swap member variables with another rx_chunk.
@@ -378,6 +393,8 @@ namespace via
         data_.swap(other.data_);
         trailers_.swap(other.trailers_);
         std::swap(valid_, other.valid_);
+        std::swap(cr_, other.cr_);
+        std::swap(fail_, other.fail_);
       }
 
       /// Parse an HTTP chunk.
@@ -391,6 +408,9 @@ namespace via
       template<typename ForwardIterator>
       bool parse(ForwardIterator& iter, ForwardIterator end)
       {
+        if (fail_)
+          return false;
+
         if (!ChunkHeader::valid() && !ChunkHeader::parse(iter, end))
           return false;
 
@@ -418,17 +438,32 @@ namespace via
             }
 
             // Chunk should end in CRLF
-            if ('\r' == *iter)
-              ++iter;
-            else
-            { // enforce if strict
-              if (STRICT_CRLF)
-                return false;
+            if (!cr_)
+            {
+              if ('\r' == *iter)
+              {
+                cr_ = true;
+                ++iter;
+              }
+              else
+              { // enforce if strict
+                if (STRICT_CRLF)
+                {
+                  fail_ = true;
+                  return false;
+                }
+              }
             }
 
             // But it must end with an LF
-            if ((iter == end) || ('\n' != *iter))
+            if (iter == end)
               return false;
+
+            if ('\n' != *iter)
+            {
+              fail_ = true;
+              return false;
+            }
             else // ('\n' == *iter)
               ++iter;
           }
@@ -458,6 +493,12 @@ namespace via
       /// @return the valid flag.
       bool valid() const noexcept
       { return valid_; }
+
+      /// Accessor for the fail flag.
+      /// @return true if the chunk header, the data terminator or the
+      /// trailers failed validation.
+      bool fail() const noexcept
+      { return fail_ || ChunkHeader::fail() || trailers_.fail(); }
     }; // rx_chunk
 
     //////////////////////////////////////////////////////////////////////////
